@@ -60,7 +60,8 @@ def repo_fingerprint():
     return h.hexdigest()
 
 
-def build_factx():
+def build_factx(repo=None):
+    repo = repo or REPO
     src = os.path.join(VERIF, "factx")
     if not os.path.isdir(src):
         return True, ""
@@ -73,7 +74,7 @@ def build_factx():
     shutil.rmtree(tmp, ignore_errors=True)
     os.makedirs(tmp)
     os.makedirs(gen, exist_ok=True)
-    rc, out = sh([exe, "-repo", REPO, "-out", tmp])
+    rc, out = sh([exe, "-repo", repo, "-out", tmp])
     if rc != 0:
         return False, out
     # replace only files whose content changed (keeps lake's incremental build effective); delete stale files
@@ -275,6 +276,16 @@ def known_match(k, pid, viol, opline):
 # ---------------------------------------------------------------- main
 
 def main(argv):
+    try:
+        return main_(argv)
+    finally:
+        if SCRATCH:
+            # leave Gen/ describing the real tree again (a later manual `lake build` must not see the scratch copy's facts)
+            with Lock("build.lock"):
+                build_factx("/repo")
+
+
+def main_(argv):
     ap = argparse.ArgumentParser()
     ap.add_argument("pid")
     ap.add_argument("--tier", default=os.environ.get("VERIF_TIER", "quick"))
